@@ -352,9 +352,13 @@ def run_life(lay, history, fms=False, faults=None, hooks=(), fbvalue=None, obser
             if th.is_alive():
                 life.hang = True
                 _G.poisoned = True
-    except Boom as e:
+    except core.HarnessError:
+        raise
+    except Exception as e:  # noqa  (raised while the robot class was defined / constructed in this thread)
         life.startup_exc = e
         life.end = ("exc", e)
+        if not life.steps:
+            life.steps.append(dict(mode=EFFECTIVE[history[0]], raw=history[0], start=0, end=len(_G.log), ev="exc"))
     finally:
         life.log = _G.log
         life.components = comp_order(lay)
